@@ -555,6 +555,9 @@ func (p *simPeer) applyUpdateLocked(u *wUpdateMsg, now time.Duration) string {
 		p.w.violate("C11", "attribute-framing", fmt.Sprintf("p%d", p.cfg.Idx), err.Error())
 		return sb.String()
 	}
+	if p.dec.AS2 && p.w.sc.Family == "world" {
+		p.mergeAS4(ra)
+	}
 	if len(ra.Dups) > 0 {
 		p.w.violate("C09", "duplicate-attribute", fmt.Sprintf("p%d", p.cfg.Idx), fmt.Sprintf("attribute types %v appear twice", ra.Dups))
 	}
@@ -585,6 +588,66 @@ func (p *simPeer) applyUpdateLocked(u *wUpdateMsg, now time.Duration) string {
 		set(u.ReachFam, n, nhString(u.ReachNH, u.ReachFam))
 	}
 	return sb.String()
+}
+
+// mergeAS4: what a 2-octet-AS speaker's NEW neighbours reconstruct (RFC 6793 4.2.3): the AS numbers
+// of AS4_PATH replace the trailing AS numbers of AS_PATH.  AS_TRANS in AS_PATH without an AS4_PATH
+// that explains it means the 4-octet AS numbers were lost on the way to this neighbour.
+func (p *simPeer) mergeAS4(ra *rAttrs) {
+	subj := fmt.Sprintf("p%d", p.cfg.Idx)
+	n2, trans := 0, false
+	for _, s := range ra.ASPath {
+		if s.Type != 1 && s.Type != 2 {
+			continue
+		}
+		n2 += len(s.ASNs)
+		for _, a := range s.ASNs {
+			if a == 23456 {
+				trans = true
+			}
+		}
+	}
+	if ra.AS4Segs == nil {
+		if trans {
+			p.w.violate("C08", "as-trans-without-as4-path", subj, fmt.Sprintf("an UPDATE to a 2-octet-AS neighbour carries AS_TRANS in AS_PATH [%s] and no AS4_PATH", asPathString(ra.ASPath)))
+		}
+		return
+	}
+	var flat4 []uint32
+	for _, s := range ra.AS4Segs {
+		flat4 = append(flat4, s.ASNs...)
+	}
+	if len(flat4) > n2 {
+		p.w.probe("as4_path_longer_than_as_path")
+		return
+	}
+	// positions are counted over the non-confederation AS numbers; set/sequence structure is taken
+	// from AS_PATH (gobgp builds AS4_PATH from the same segments)
+	skip := n2 - len(flat4)
+	i := 0
+	for si := range ra.ASPath {
+		s := &ra.ASPath[si]
+		if s.Type != 1 && s.Type != 2 {
+			continue
+		}
+		for k := range s.ASNs {
+			if i >= skip {
+				v4 := flat4[i-skip]
+				v2 := s.ASNs[k]
+				if (v4 > 65535 && v2 != 23456) || (v4 <= 65535 && v2 != v4) {
+					p.w.violate("C08", "as4-path-inconsistent", subj, fmt.Sprintf("AS_PATH [%s] and AS4_PATH %s disagree at position %d", asPathString(ra.ASPath), ra.AS4Path, i))
+					return
+				}
+				s.ASNs[k] = v4
+			} else if s.ASNs[k] == 23456 {
+				p.w.violate("C08", "as-trans-without-as4-path", subj, fmt.Sprintf("AS_TRANS at position %d of AS_PATH [%s] is not covered by AS4_PATH %s", i, asPathString(ra.ASPath), ra.AS4Path))
+				return
+			}
+			i++
+		}
+	}
+	ra.AS4Path, ra.AS4Segs = "", nil
+	p.w.probe("as4_path_merged")
 }
 
 func (p *simPeer) sessionDown(b *simConn, sess int, why string, down chan struct{}) {
